@@ -622,6 +622,41 @@ func c04Check(src string, cfg c04Cfg, m Mode, base *c04Base, wantSteps *[2]strin
 			return k, d
 		}
 	}
+	// a builder builds many parsers: the n-th parser built from the same builder behaves like the first. Run for the
+	// 2nd and 3rd build (consecutive, so that a builder whose state alternates from build to build is seen whatever the
+	// parity) and once more after the builder has been reconfigured and switched back.
+	first := lg
+	nthBuild := func(label string) (string, string) {
+		if !(cfg.NS >= 2 || active >= 2 || cfg.NT >= 2) {
+			return "", ""
+		}
+		lg = c04Log{}
+		defer func() { lg = first }()
+		o2 := parseWith(pb, src)
+		if o2.Panic != "" {
+			return "panic", label + " parser built from the same builder: " + o2.Panic
+		}
+		if d := dumpTree(o2.Prog); d != base.dump {
+			return "second-build-tree-differs", fmt.Sprintf("%s parser built from the same builder gives %s, first %s", label, ref.XStmts(o2.Prog.Statements), ref.XStmts(base.prog.Statements))
+		}
+		for _, pr := range [][2][]c04Step{{first.stmt, lg.stmt}, {first.expr, lg.expr}} {
+			a, b := pr[0], pr[1]
+			if len(a) != len(b) {
+				return "second-build-log-differs", fmt.Sprintf("%s parser built from the same builder logs %d interceptor events, the first %d", label, len(b), len(a))
+			}
+			for i := range a {
+				if a[i].who != b[i].who || a[i].enter != b[i].enter || a[i].pos != b[i].pos {
+					return "second-build-log-differs", fmt.Sprintf("event %d: %s parser built from the same builder: interceptor %d (enter=%v) at %v; first parser: interceptor %d (enter=%v) at %v", i, label, b[i].who, b[i].enter, b[i].pos, a[i].who, a[i].enter, a[i].pos)
+				}
+			}
+		}
+		return "", ""
+	}
+	for _, label := range []string{"second", "third"} {
+		if k, d := nthBuild(label); k != "" {
+			return k, d
+		}
+	}
 	// a builder is reconfigured between two builds: the next parser must behave like an interceptor-free
 	// parser of the NEW mode (options cached at the first Build would show here)
 	if cfg.NS >= 1 || len(cfg.Ex) >= 1 {
@@ -647,28 +682,8 @@ func c04Check(src string, cfg c04Cfg, m Mode, base *c04Base, wantSteps *[2]strin
 		pb.WithTolerantMode(m.Tolerant)
 		pb.WithSmartSemicolon(m.Smart)
 	}
-	// a builder builds many parsers: the second parser built from the same builder behaves like the first
-	if cfg.NS >= 2 || active >= 2 || cfg.NT >= 2 {
-		first := lg
-		lg = c04Log{}
-		o2 := parseWith(pb, src)
-		if o2.Panic != "" {
-			return "panic", "second parser built from the same builder: " + o2.Panic
-		}
-		if d := dumpTree(o2.Prog); d != base.dump {
-			return "second-build-tree-differs", fmt.Sprintf("second parser built from the same builder gives %s, first %s", ref.XStmts(o2.Prog.Statements), ref.XStmts(base.prog.Statements))
-		}
-		for _, pr := range [][2][]c04Step{{first.stmt, lg.stmt}, {first.expr, lg.expr}} {
-			a, b := pr[0], pr[1]
-			if len(a) != len(b) {
-				return "second-build-log-differs", fmt.Sprintf("second parser built from the same builder logs %d interceptor events, the first %d", len(b), len(a))
-			}
-			for i := range a {
-				if a[i].who != b[i].who || a[i].enter != b[i].enter || a[i].pos != b[i].pos {
-					return "second-build-log-differs", fmt.Sprintf("event %d: second parser built from the same builder: interceptor %d (enter=%v) at %v; first parser: interceptor %d (enter=%v) at %v", i, b[i].who, b[i].enter, b[i].pos, a[i].who, a[i].enter, a[i].pos)
-				}
-			}
-		}
+	if k, d := nthBuild("a later (after the builder was switched to the other modes and back)"); k != "" {
+		return k, d
 	}
 	return "", ""
 }
